@@ -38,7 +38,9 @@ EXPLANATION = (
     ' '
     'R-C12.12 = R-C05.8.'
     ' '
-    "R-C12.5 also requires the null exemption of AddField's missing-initial guard to be a truthiness test; R-C12.4 treats fail() as non-returning and is flow-sensitive about rebinding.")
+    "R-C12.5 also requires the null exemption of AddField's missing-initial guard to be a truthiness test; R-C12.4 treats fail() as non-returning and is flow-sensitive about rebinding."
+    ' '
+    'R-C12.13 = R-C15.8; R-C12.14 SimulationFailure and CannotSimulate are not related by inheritance.')
 NOT_DECIDED = (
     'That every perturbed evolution is in fact rejected (quantifies over '
     'evolutions and needs the diff/simulate semantics executed).')
@@ -868,7 +870,37 @@ def r12_defaults_precedence(ctx):
     r8_defaults_precedence(ctx, rule_id='R-C12.12')
 
 
+def r13_app_lookup_through_accessor(ctx):
+    from .c15 import r8_app_lookup_through_accessor
+    r8_app_lookup_through_accessor(ctx, rule_id='R-C12.13')
+
+
+def r14_rejection_is_not_cannot_simulate(ctx, rule_id='R-C12.14'):
+    """Two exception classes with opposite meanings: CannotSimulate ("this
+    mutation cannot be simulated, carry on without simulation" - caught by
+    every mutator) and SimulationFailure ("this evolution is invalid" - must
+    reach the caller).  Neither may be a subclass of the other, or the
+    handlers for the first swallow the second: a mutation its own guard
+    rejected (deleting a primary key) is then lowered and executed."""
+    ctx.rule(rule_id)
+    p = ctx.program
+    sf = p.cls('errors', 'SimulationFailure')
+    cs = p.cls('errors', 'CannotSimulate')
+    if sf.is_subclass_of(cs) or cs.is_subclass_of(sf):
+        ctx.finding(('django_evolution.errors', 'SimulationFailure'), sf.node,
+                    'SimulationFailure and CannotSimulate are related by '
+                    'inheritance: `except CannotSimulate` in the mutators '
+                    'now also catches the rejection of an invalid mutation, '
+                    'whose already queued operation is then executed',
+                    key='rejection-caught-as-cannot-simulate')
+    else:
+        ctx.ok(('django_evolution.errors', 'SimulationFailure'),
+               'SimulationFailure and CannotSimulate are unrelated classes')
+
+
 def run(ctx):
+    r14_rejection_is_not_cannot_simulate(ctx)
+    r13_app_lookup_through_accessor(ctx)
     r12_defaults_precedence(ctx)
     r11_unbuildable_type_counts_as_changed(ctx)
     r10_gate_sees_removed_models(ctx)
